@@ -8,6 +8,7 @@
 //
 //	incdec     i++ / i-- become i += 1 / i -= 1
 //	neg-if     if c { A } else { B } becomes if !(c) { B } else { A } (no else-if chains)
+//	rangeint   for i := 0; i < N; i++ becomes for i := range N
 //	switch-if  a small tagged switch becomes an if / else-if chain
 //	demorgan   !(a) introduced: a && b becomes !(!(a) || !(b)) for boolean conditions of if statements
 package main
@@ -123,6 +124,98 @@ func main() {
 								last.Else = deflt
 							}
 							blk.List[k] = chain
+							n++
+						}
+					}
+				case "rangeint":
+					// for i := 0; i < N; i++ { body }  ->  for i := range N { body }   (the modernisation `go fix`
+					// offers since Go 1.22), when the body does not assign to i and N is a constant or an
+					// identifier / selector that the body does not assign to
+					if blk, ok := node.(*ast.BlockStmt); ok {
+						for k, st := range blk.List {
+							fs, ok := st.(*ast.ForStmt)
+							if !ok || fs.Init == nil || fs.Cond == nil || fs.Post == nil {
+								continue
+							}
+							as, ok := fs.Init.(*ast.AssignStmt)
+							if !ok || as.Tok != token.DEFINE || len(as.Lhs) != 1 || len(as.Rhs) != 1 {
+								continue
+							}
+							iv, ok := as.Lhs[0].(*ast.Ident)
+							if !ok {
+								continue
+							}
+							if lit, ok := as.Rhs[0].(*ast.BasicLit); !ok || lit.Value != "0" {
+								continue
+							}
+							cond, ok := fs.Cond.(*ast.BinaryExpr)
+							if !ok || cond.Op != token.LSS {
+								continue
+							}
+							if cid, ok := cond.X.(*ast.Ident); !ok || cid.Name != iv.Name {
+								continue
+							}
+							inc, ok := fs.Post.(*ast.IncDecStmt)
+							if !ok || inc.Tok != token.INC {
+								continue
+							}
+							if pid, ok := inc.X.(*ast.Ident); !ok || pid.Name != iv.Name {
+								continue
+							}
+							// the bound: a constant, identifier or selector; type int (range over other integer types changes i's type)
+							switch cond.Y.(type) {
+							case *ast.BasicLit, *ast.Ident, *ast.SelectorExpr:
+							default:
+								continue
+							}
+							if tv, ok := p.TypesInfo.Types[cond.Y]; !ok || tv.Type == nil {
+								continue
+							} else if bt, isB := tv.Type.Underlying().(*types.Basic); !isB || (bt.Kind() != types.Int && bt.Kind() != types.UntypedInt) {
+								continue
+							}
+							if obj := p.TypesInfo.Defs[iv]; obj == nil {
+								continue
+							} else if bt, isB := obj.Type().Underlying().(*types.Basic); !isB || bt.Kind() != types.Int {
+								continue
+							}
+							bound := types.ExprString(cond.Y)
+							assigned := false
+							ast.Inspect(fs.Body, func(m ast.Node) bool {
+								switch t := m.(type) {
+								case *ast.AssignStmt:
+									for _, l := range t.Lhs {
+										if ls := types.ExprString(l); ls == iv.Name || ls == bound {
+											assigned = true
+										}
+									}
+								case *ast.IncDecStmt:
+									if ls := types.ExprString(t.X); ls == iv.Name || ls == bound {
+										assigned = true
+									}
+								case *ast.UnaryExpr:
+									if t.Op == token.AND {
+										if ls := types.ExprString(t.X); ls == iv.Name {
+											assigned = true
+										}
+									}
+								}
+								return true
+							})
+							if assigned {
+								continue
+							}
+							used := false
+							ast.Inspect(fs.Body, func(m ast.Node) bool {
+								if id, ok := m.(*ast.Ident); ok && id.Name == iv.Name {
+									used = true
+								}
+								return true
+							})
+							if used {
+								blk.List[k] = &ast.RangeStmt{Key: iv, Tok: token.DEFINE, X: cond.Y, Body: fs.Body}
+							} else {
+								blk.List[k] = &ast.RangeStmt{X: cond.Y, Body: fs.Body}
+							}
 							n++
 						}
 					}
